@@ -1,4 +1,4 @@
-\* exhaustive: one provider on two chains, one delegator, one validator, <= 5 operations
+\* exhaustive (code with fixes F6, F6b, F6c = /repo HEAD): one provider on two chains, one delegator, one validator, <= 5 operations
 CONSTANTS
   Provs = {"p1"}
   Chains = {"c1", "c2"}
@@ -8,10 +8,10 @@ CONSTANTS
   DelAmts = {1000}
   MinSelf = 100
   MinSpec = 1000
-  Fixed = FALSE
+  Fixed = TRUE
   MaxOps = 5
   GenHist = FALSE
 INIT Init
 NEXT Next
-INVARIANTS TypeOK MetaChains TotalDelegations Mirror
+INVARIANTS TypeOK MetaChains SelfStake TotalDelegations Mirror DelegateTotals FrozenBelowMin
 CHECK_DEADLOCK FALSE
